@@ -97,6 +97,9 @@ type seqRule struct {
 	trackAny   []string
 	loadSyms   bool
 	exprVal    func(fr *Frame, e ast.Expr) (Value, bool)
+	exprValSt  func(ip *Interp, fr *Frame, st *State, e ast.Expr) (Value, bool)
+	litElem    func(ip *Interp, fr *Frame, st *State, lit *ast.CompositeLit, key string, v Value) *State
+	fieldStore func(ip *Interp, fr *Frame, st *State, sel *ast.SelectorExpr, v Value) *State
 	init       kv
 	args       []Value
 }
@@ -145,7 +148,7 @@ func (sr *seqRule) segments(root *Func) []Segment {
 		j := strings.Index(last, "~")
 		return last[:j], last[j+1:], rest
 	}
-	tr := &traceRule{c: sr.c, rule: sr.rule, noInline: sr.noInline, maxDepth: sr.maxDepth, relevant: sr.relevant, trackField: sr.trackField, trackAny: sr.trackAny, loadSyms: sr.loadSyms, args: sr.args, exprVal: sr.exprVal}
+	tr := &traceRule{c: sr.c, rule: sr.rule, noInline: sr.noInline, maxDepth: sr.maxDepth, relevant: sr.relevant, trackField: sr.trackField, trackAny: sr.trackAny, loadSyms: sr.loadSyms, args: sr.args, exprVal: sr.exprVal, exprValSt: sr.exprValSt, fieldStore: sr.fieldStore, litElem: sr.litElem}
 	tr.classify = sr.classify
 	tr.step = func(s kv, ev Ev) kv {
 		switch {
@@ -261,4 +264,14 @@ func (sr *seqRule) segments(root *Func) []Segment {
 	}
 	tr.run(root, sr.init)
 	return segs
+}
+
+// addSym appends a symbol to the sequence carried by st (for the state hooks of a rule).
+func addSym(st *State, sym string) *State {
+	s := st.Dom.(kv)
+	cur := s.get("seq")
+	if cur == "" {
+		return st.WithDom(s.set("seq", sym))
+	}
+	return st.WithDom(s.set("seq", cur+","+sym))
 }
